@@ -355,6 +355,7 @@ def tod_item(arg):
     be produced for the segment whose interval contains that time, and for no other listed segment."""
     stream, addressing, ks, tier = arg[:4]
     age = arg[4] if len(arg) > 4 else 0           # seconds the stream has been running before the window of interest
+    early = arg[5] if len(arg) > 5 else False     # the manifest is fetched before the addressed time and not refreshed
     from fractions import Fraction
     from mc import mpd
     w = W.World.shared(extras=True)
@@ -368,12 +369,15 @@ def tod_item(arg):
         q = {'start': crawl.iso(ast), 'depth': '40', 'verr': f'503={tod}', 'aerr': f'404={tod}'}
         if addressing == 'time':
             q['timeline'] = '1'
+        if early:
+            q['mup'] = '-1'
         url = f'/dash/live/{stream}/hand_made.mpd' + crawl.make_query(q)
-        W.set_now(now)
+        W.set_now(ast + datetime.timedelta(seconds=age + 20) if early else now)
         r = w.get(url)
+        W.set_now(now)
         acc.count('evaluations')
         acc.count('transitions')
-        rec = {'kind': 'tod', 'stream': stream, 'addressing': addressing, 'ks': [k0], 'age': age}
+        rec = {'kind': 'tod', 'stream': stream, 'addressing': addressing, 'ks': [k0], 'age': age, 'early': early}
         if r.status != 200:
             acc.violation(f'C16|tod|{addressing}|manifest-status-{r.status}', f'{url}: status {r.status}', rec)
             continue
@@ -401,7 +405,7 @@ def tod_item(arg):
             if [sg['t'] for sg in hits] != [sg['t'] for sg in want]:
                 cls = 'none' if not hits else ('several' if len(hits) > 1 else
                                                ('earlier' if want and hits[0]['t'] < want[0]['t'] else 'later'))
-                acc.violation(f'C16|tod|{addressing}|{ctype}|error-on-{cls}-segment',
+                acc.violation(f'C16|tod|{addressing}{"|manifest-fetched-earlier" if early else ""}|{ctype}|error-on-{cls}-segment',
                               f'{url} ({rep.id}): the error addressed at {tod} (+{k} s) is produced for '
                               f'{[span(sg) for sg in hits]}, the segment containing that time is {[span(sg) for sg in want]}', rec)
     return acc
@@ -470,6 +474,10 @@ def run(ctx):
                 items.append(('tod', (stream, addressing, ch, ctx.tier)))
             # an old stream: the audio and video segment grids have drifted apart by several segments
             # (6 h and 23 h 30 min; the time of day must stay within the day of availabilityStartTime)
+            if addressing == 'number':
+                # the manifest is fetched 20 s into the stream, the error lies later, the segments are fetched at 47.5 s
+                for ch in core.chunks([24, 27, 28, 33, 36, 39.5] if ctx.quick else list(range(22, 44)), 5):
+                    items.append(('tod', (stream, addressing, ch, ctx.tier, 0, True)))
             for age in ((6 * 3600,) if ctx.quick else (6 * 3600, 11 * 3600 + 1800)):
                 for ch in core.chunks(sorted(set(ks))[::2] if ctx.quick else sorted(set(ks)), 5):
                     items.append(('tod', (stream, addressing, ch, ctx.tier, age)))
@@ -506,7 +514,7 @@ def replay(record):
         r = w.request('POST', record['url'], json_body=record['body'])
         judge(acc, 'json', f"POST {record['url']} {repr(record['body'])[:60]}", None, r, record)
     elif k == 'tod':
-        a = tod_item((record['stream'], record['addressing'], record['ks'], 'quick', record.get('age', 0)))
+        a = tod_item((record['stream'], record['addressing'], record['ks'], 'quick', record.get('age', 0), record.get('early', False)))
         return [(s_, v[0]['what']) for s_, v in a.viol.items()]
     elif k == 'mgmt':
         from props import c17
